@@ -203,10 +203,30 @@ func (spread GradientSpread) RadialGradient(positions []Fl, colors []parser.RGBA
 	circles := [6]Fl{fx, fy, fr, cx, cy, r}
 
 	if spread != NoRepeat {
+		// Render as a solid color if the gradient has to be repeated too many
+		// times to cover the area, as for linear gradients
+		if n := radialRepeats(width, height, circles); !(n <= maxRepeatedStops) {
+			color := gradientAverageColor(colors, positions)
+			return backend.GradientLayout{ScaleY: 1, GradientKind: backend.GradientKind{Kind: "solid"}, Colors: []parser.RGBA{color}}
+		}
 		circles, positions, colors = spread.repeatRadial(width, height, circles, positions, colors)
 	}
 
 	return backend.GradientLayout{ScaleY: 1, GradientKind: backend.GradientKind{Kind: "radial", Coords: circles}, Positions: positions, Colors: colors}
+}
+
+// radialRepeats returns how many times a radial gradient has to be repeated
+// outside its outer circle or inside its inner circle to cover the area.
+// points = [fx, fy, fr, cx, cy, r]
+func radialRepeats(width, height Fl, points [6]Fl) Fl {
+	gradientLength := points[5] - points[2]
+	maxDistance := utils.Maxs(
+		utils.Hypot(width-points[0], height-points[1]),
+		utils.Hypot(width-points[0], -points[1]),
+		utils.Hypot(-points[0], height-points[1]),
+		utils.Hypot(-points[0], -points[1]),
+	)
+	return utils.Maxs((maxDistance-points[5])/gradientLength, points[2]/gradientLength)
 }
 
 // points = [fx, fy, fr, cx, cy, r]
